@@ -58,6 +58,17 @@ func VerifInsValue(seed uint64, metricID int32, v *data_model.MultiValue, sf flo
 	return multiValueMarshal(rand.New(seed), metricID, nil, v, sf, verifInsCtx())
 }
 
+// VerifInsValueAfter: the real multiValueMarshal of (metricID, v) in an insert whose metricIndexCache has just
+// served the given other metrics (one appendContext for the whole sequence, as in rowDataMarshalAppendPositions)
+func VerifInsValueAfter(seed uint64, before []int32, metricID int32, v *data_model.MultiValue, sf float64) []byte {
+	ctx := verifInsCtx()
+	rng := rand.New(seed + 1)
+	for _, m := range before {
+		_ = multiValueMarshal(rng, m, nil, v, sf, ctx)
+	}
+	return multiValueMarshal(rand.New(seed), metricID, nil, v, sf, ctx)
+}
+
 // VerifInsArgTag: the real appendArgMinMaxTag
 func VerifInsArgTag(tag data_model.TagUnion, value float32) []byte {
 	return appendArgMinMaxTag(nil, tag, value)
@@ -94,6 +105,9 @@ func (c *verifInsConn) ProtocolVersion() uint32                                 
 func (c *verifInsConn) ProtocolTransportID() byte                                { return 0 }
 func (c *verifInsConn) ConnectionID() uintptr                                    { return 1 }
 
+// VerifInsAggHost: host tag of the assembled aggregator (min/max host of the rows it writes about itself)
+const VerifInsAggHost = 55
+
 type VerifInsAgg struct {
 	a    *Aggregator
 	conn *verifInsConn
@@ -116,7 +130,7 @@ func NewVerifInsAgg(sh2 *agent.Agent, replicaKey int32, oldest uint32, n int, to
 		sh2:             sh2,
 		config:          cfg,
 		configR:         cfg.RemoteInitial,
-		metricStorage:   metajournal.MakeMetricsStorage(nil),
+		metricStorage:   verifInsStorage, // metrics 101..107 with skip flags, nothing else
 		mappingsStorage: metajournal.MakeMappings(context.Background(), time.Second, false, 16, []*data_model.ChunkedStorage2{data_model.NewChunkedStorageNop()}),
 		historicHosts: [2][2]map[data_model.TagUnion]int64{
 			{map[data_model.TagUnion]int64{}, map[data_model.TagUnion]int64{}},
@@ -124,6 +138,7 @@ func NewVerifInsAgg(sh2 *agent.Agent, replicaKey int32, oldest uint32, n int, to
 		orgMetricSize: data_model.NewExpDecayMetrics(cfg.RemoteInitial.OriginalSizeDecayHalfLife),
 	}
 	a.estimator.Init()
+	a.aggregatorHostTag = data_model.TagUnion{I: VerifInsAggHost}
 	a.tagsMapper3 = NewTagsMapper3(a, sh2, a.metricStorage, nil)
 	for i := 0; i < n; i++ {
 		a.recentBuckets = append(a.recentBuckets, newAggregatorBucket(oldest+uint32(i)))
